@@ -1175,3 +1175,119 @@ func init() {
 		},
 	})
 }
+
+func init() {
+	register(&Rule{
+		ID: "C13-m", Template: "T1 must-traverse (a successful fetch saved its refs)",
+		Doc: "A fetch that reports success has written its refs: cmd/wrgl/fetch.Fetch — itself or through helpers of the package — returns success only after saveFetchedRefs succeeded. 'Nothing to download' is not 'nothing to do': after an attempt that stored the objects and was interrupted before the refs, and for a remote ref that moved onto a commit already present, the objects phase has nothing left to fetch while the refs still have to be written; a shortcut past saveFetchedRefs makes the re-run report success with the remote-tracking refs never updated.",
+		Min: 1,
+		Run: func(p *Program, r *RuleResult) error {
+			fn, err := p.SSAFunc("cmd/wrgl/fetch.Fetch")
+			if err != nil {
+				return err
+			}
+			save, err := p.MustFuncs("cmd/wrgl/fetch.saveFetchedRefs")
+			if err != nil {
+				return err
+			}
+			r.Analysed = 1
+			ms := &mustSummary{match: func(in ssa.Instruction) bool {
+				c, ok := in.(*ssa.Call)
+				if !ok {
+					return false
+				}
+				f := calleeFunc(c)
+				return f != nil && save[f]
+			}}
+			key := funcName(fn) + "|refs-saved"
+			what := "a fetch succeeds only after its refs were saved"
+			if ok, ret := ms.check(fn, inlineDepth); ok {
+				r.ok(key, p.Rel(fn.Pos()), what)
+			} else if ret != nil {
+				r.bad(key, p.Rel(ret.Pos()), what, "a successful return of Fetch (or of the helper it delegates to) is reachable without a successful saveFetchedRefs")
+			} else {
+				r.bad(key, p.Rel(fn.Pos()), what, "saveFetchedRefs is not reached from Fetch")
+			}
+			return nil
+		},
+	})
+}
+
+func init() {
+	register(&Rule{
+		ID: "C05-i", Template: "T10 agreement (parallel per-layer lists are written together)",
+		Doc: "A layer's row sum and that row's position stay together: merge.Merge.Others[i] (the sum of the row in branch i) and Merge.OtherOffsets[i] (where that row is in branch i's table) are parallel lists; in pkg/merge every element store into one of them has, in the same basic block, an element store into the other with the same index value on the same Merge. The resolver fetches a branch's row through OtherOffsets[layer]; a sum recorded under one index with its offset under another (or under none) makes it read a different row of that branch — silently, the cell values of row 0 for instance.",
+		Min: 2,
+		Run: func(p *Program, r *RuleResult) error {
+			others, err := p.Field("pkg/merge.Merge.Others")
+			if err != nil {
+				return err
+			}
+			offs, err := p.Field("pkg/merge.Merge.OtherOffsets")
+			if err != nil {
+				return err
+			}
+			fns := p.FuncsInPkg("pkg/merge")
+			r.Analysed = len(fns)
+			type elemStore struct {
+				st   *ssa.Store
+				ia   *ssa.IndexAddr
+				base ssa.Value // the Merge
+				fld  *types.Var
+			}
+			for _, fn := range fns {
+				var stores []elemStore
+				for _, b := range fn.Blocks {
+					for _, in := range b.Instrs {
+						st, ok := in.(*ssa.Store)
+						if !ok {
+							continue
+						}
+						ia, ok := st.Addr.(*ssa.IndexAddr)
+						if !ok {
+							continue
+						}
+						u, ok := stripConv(ia.X).(*ssa.UnOp)
+						if !ok || u.Op != token.MUL {
+							continue
+						}
+						fa, ok := u.X.(*ssa.FieldAddr)
+						if !ok {
+							continue
+						}
+						f := structField(fa.X.Type(), fa.Field)
+						if f != others && f != offs {
+							continue
+						}
+						stores = append(stores, elemStore{st, ia, fa.X, f})
+					}
+				}
+				n := 0
+				for _, s := range stores {
+					key := fmt.Sprintf("%s|%s[i]#%d", funcName(fn), s.fld.Name(), n)
+					n++
+					what := "a layer's row sum and row offset are recorded under the same index"
+					paired := false
+					for _, t := range stores {
+						if t.fld == s.fld || t.st.Block() != s.st.Block() {
+							continue
+						}
+						if sameIndexVal(s.ia.Index, t.ia.Index) && (sameObject(s.base, t.base) || sameElem(s.base, t.base)) {
+							paired = true
+						}
+					}
+					if paired {
+						r.ok(key, p.Rel(s.st.Pos()), what)
+					} else {
+						other := "OtherOffsets"
+						if s.fld == offs {
+							other = "Others"
+						}
+						r.bad(key, p.Rel(s.st.Pos()), what, fmt.Sprintf("%s[%s] is written here without %s[%s] being written next to it: the two lists no longer describe the same row of that layer", s.fld.Name(), s.ia.Index.Name(), other, s.ia.Index.Name()))
+					}
+				}
+			}
+			return nil
+		},
+	})
+}
